@@ -61,6 +61,12 @@ def facts_controls(ctx, rep):
         dv[fname] = bool(sites) and all(divisor_nonzero(mod, fn, Fd, Md, i, i.ops[1]) is not None for i in sites)
     if dv != {"div_bad": False, "div_ok": True, "div_ok2": True}:
         _fail(rep, "division", "non-zero divisor control: %s" % dv)
+    from .props.c08 import ctype_sites
+    ct = {}
+    for f_, g_, idx_, ok_ in ctype_sites(mod, lambda fn_: Facts(fn_)):
+        ct.setdefault(f_.cname, []).append(ok_)
+    if not (ct.get("ct_ok") and all(ct["ct_ok"]) and ct.get("ct_bad") and not any(ct["ct_bad"])):
+        _fail(rep, "ctype", "character-class table control: %s" % ct)
     imod = ctx.fixture("fx_facts", inline=True)
     sel = {}
     for fname in ("flagsel_ok", "flagsel_bad"):
